@@ -22,9 +22,11 @@ def run_one(s):
     law = s["law"]
     dom = U.build(e)
     names = sorted(U.free_vars(e))
-    row = s.get("row") or {}
-    row = {n: row[n] for n in names}
-    par = U.mk_params(names, [row] if names else [])
+    rows = s.get("rows") or [s.get("row") or {}]          # a batch of parameter rows; the points of row number `judge` are logged
+    judge = s.get("judge") or 1
+    rows = [{n: rw[n] for n in names} for rw in rows]
+    row = rows[judge - 1]
+    par = U.mk_params(names, rows if names else [])
     if s.get("boundary"):
         dom = dom.boundary
     N = s["N"]
@@ -33,24 +35,34 @@ def run_one(s):
 
     def coords(p):
         return torch.cat([p.coordinates[v] for v in vs], dim=1).detach()
-    if law == "uniform":
-        r = watched(lambda: dom.sample_random_uniform(n=N, params=par), 20)
-    elif law == "uniform_d":
-        r = watched(lambda: dom.sample_random_uniform(d=s["d"], params=par), 20)
-    elif law == "grid":
-        r = watched(lambda: dom.sample_grid(n=N, params=par), 20)
-    elif law == "gauss":
-        smp = tp.samplers.GaussianSampler(dom, n_points=N, mean=[m / 4.0 for m in s["mean"]], std=s["std"] / 4.0)
-        r = watched(lambda: smp.sample_points(par), 30)
-    elif law == "lhs":
-        smp = tp.samplers.LHSSampler(dom, n_points=N)
-        r = watched(lambda: smp.sample_points(par), 20)
-    else:
+
+    def call(law, N):
+        if law == "uniform":
+            return watched(lambda: dom.sample_random_uniform(n=N, params=par), 20)
+        if law == "uniform_d":
+            return watched(lambda: dom.sample_random_uniform(d=s["d"], params=par), 20)
+        if law == "grid":
+            return watched(lambda: dom.sample_grid(n=N, params=par), 20)
+        if law == "gauss":
+            smp = tp.samplers.GaussianSampler(dom, n_points=N, mean=[m / 4.0 for m in s["mean"]], std=s["std"] / 4.0)
+            return watched(lambda: smp.sample_points(par), 30)
+        if law == "lhs":
+            smp = tp.samplers.LHSSampler(dom, n_points=N)
+            return watched(lambda: smp.sample_points(par), 20)
         raise ValueError(law)
+    for pre in s.get("pre") or []:          # earlier calls on the SAME domain object (history must not matter)
+        call(pre["law"], pre["N"])
+    r = call(law, N)
     if r[0] != "ok":
         tr["exc"] = r[1] if len(r) > 1 else "hang"
         return tr
     t = coords(r[1])
+    if len(rows) > 1 and names:             # n points per parameter row, row-major: keep those of the judged row
+        if law != "uniform_d" and len(t) != N * len(rows):
+            tr["exc"] = "row-count"
+            return tr
+        per = len(t) // len(rows)
+        t = t[(judge - 1) * per: judge * per]
     tr["N"] = len(t)
     if s["log"] == "boxes":
         tr["counts"] = boxes(t, float(s["lo"]), s["size"] / float(s["den"]), s["nb"])
